@@ -18,7 +18,7 @@ def main():
             vlib.write_main(os.path.join(vlib.HARNESS, "cmd", "h_" + p, "main.go"), [p])
         os.makedirs(vlib.BIN, exist_ok=True)
         # all harness binaries in one go invocation (compiles shared packages once, links in parallel)
-        rc, o, e = vlib.sh(["go", "build", "-tags", "verif", "-o", vlib.BIN + "/"] + ["./cmd/h_" + p for p in pk],
+        rc, o, e = vlib.sh(["go", "build", "-trimpath", "-tags", "verif", "-o", vlib.BIN + "/"] + ["./cmd/h_" + p for p in pk],
                            cwd=vlib.HARNESS, env=vlib.goenv(), timeout=6000)
         b = "all"
         if rc != 0:
